@@ -96,6 +96,7 @@ Obl(e) ==
   CASE e.op = "Dec" -> DecObl(e)
     [] e.op = "Enc" -> << <<"quiet", Quiet(e)>>, <<"marshal-is-encoding", e.out = Enc(e.m, e.val)>> >>
     [] e.op = "Call" -> CallObl(e)
+    [] e.op = "TagSweep" -> << <<"quiet", e.panic = "">>, <<"other-tags-rejected", e.accepted = 0 /\ e.tried > 65000>> >>
     [] e.op = "RNew" -> <<>>
     [] e.op = "RUnmarshal" -> <<
          <<"quiet", Robust => Quiet(e)>>,
